@@ -2,7 +2,7 @@
    on the implementation's answers) mean what the theorems say, and the model always passes
    them. *)
 From Coq Require Import ZArith List Bool Lia.
-From FV Require Import Generated.Consts C14.Model C14.Spec C14.ProofsDict C14.ProofsMatch C14.ProofsWild.
+From FV Require Import Generated.Consts C14.Model C14.Spec C14.ProofsDict C14.ProofsMatch C14.ProofsSem C14.ProofsWild.
 Import ListNotations.
 Open Scope Z_scope.
 
@@ -273,4 +273,66 @@ Proof.
   intros u k E. rewrite (mlen_literal _ _ (literal_spec_run ops Hl) (root_not_end ops)) in E.
   destruct (spec_starts_some _ _ _ E) as [w [b [Hu [Hlen Hw]]]]. rewrite <- Hlen.
   apply longest_ge; [apply (rep_terminal _ _ R); exact Hw|]. apply prefix_b_literal. exists b. exact Hu.
+Qed.
+
+Lemma model_probe_rep t d w : rep t d -> terminal (root t) w = wmem w d.
+Proof.
+  intros R. pose proof (rep_terminal _ _ R w) as H. rewrite <- wmem_In in H.
+  destruct (terminal (root t) w), (wmem w d); try reflexivity; exfalso; intuition congruence.
+Qed.
+
+(* ---------- the general reference matcher (any dictionary) ---------- *)
+
+Lemma walk_snoc p : forall n c,
+  walk n (p ++ [c]) = match walk n p with Some m => child_get c (children m) | None => None end.
+Proof.
+  induction p as [|x p IH]; intros n c; cbn [app walk].
+  - destruct (child_get c (children n)); reflexivity.
+  - destruct (child_get x (children n)) as [m|]; [apply IH | reflexivity].
+Qed.
+
+Lemma has_prefix_path t d q : rep t d -> q <> [] ->
+  has_prefix d q = has_path (root t) q.
+Proof.
+  intros R Hq. destruct (has_path (root t) q) eqn:Hp.
+  - destruct (rep_pruned _ _ R q Hq Hp) as [r Hr]. apply (rep_terminal _ _ R) in Hr.
+    unfold has_prefix. apply existsb_exists. exists (q ++ r). split; [exact Hr|].
+    apply prefix_b_literal. exists r. reflexivity.
+  - destruct (has_prefix d q) eqn:E; [|reflexivity]. unfold has_prefix in E.
+    apply existsb_exists in E as [w [Hin Hpre]]. apply prefix_b_literal in Hpre as [r ->].
+    apply (rep_terminal _ _ R) in Hin. apply terminal_has_path, has_path_app in Hin. congruence.
+Qed.
+
+Lemma ref_walk_model t d : rep t d -> forall s p n,
+  walk (root t) p = Some n -> is_end n = false ->
+  ref_walk d p s = match mlen n s with Some _ => true | None => false end.
+Proof.
+  intros R. induction s as [|c s IH]; intros p n Hw He.
+  - rewrite (mlen_nil n He). reflexivity.
+  - cbn [ref_walk]. rewrite mlen_cons.
+    assert (Hstep : forall x, has_prefix d (p ++ [x]) = match child_get x (children n) with Some _ => true | None => false end).
+    { intros x. rewrite (has_prefix_path t d (p ++ [x]) R) by (destruct p; discriminate).
+      unfold has_path. rewrite walk_snoc, Hw. reflexivity. }
+    assert (Hend : forall x m, child_get x (children n) = Some m ->
+              walk (root t) (p ++ [x]) = Some m /\ wmem (p ++ [x]) d = is_end m).
+    { intros x m Hx. assert (Hwx : walk (root t) (p ++ [x]) = Some m) by (rewrite walk_snoc, Hw; exact Hx).
+      split; [exact Hwx|]. rewrite <- (model_probe_rep t d (p ++ [x]) R). unfold terminal. rewrite Hwx. reflexivity. }
+    unfold contains_child. rewrite !Hstep.
+    destruct (child_get c (children n)) as [m|] eqn:Ec.
+    + destruct (Hend c m Ec) as [Hwm Hem]. rewrite Hem. destruct (is_end m) eqn:Em; [reflexivity|].
+      rewrite (IH (p ++ [c]) m Hwm Em). destruct (mlen m s); reflexivity.
+    + destruct (child_get star (children n)) as [m|] eqn:Es; [|reflexivity].
+      destruct (Hend star m Es) as [Hwm Hem]. rewrite Hem. destruct (is_end m) eqn:Em; [reflexivity|].
+      rewrite (IH (p ++ [star]) m Hwm Em). destruct (mlen m s); reflexivity.
+Qed.
+
+Lemma model_contains_general ops s : contains_text (run ops) s = ref_contains (spec_run ops) s.
+Proof.
+  destruct (inv_run ops) as [R Hn]. rewrite contains_text_first_match.
+  pose proof (root_not_end ops) as He.
+  induction s as [|x s IH]; [reflexivity|].
+  cbn [first_match ref_contains].
+  rewrite (ref_walk_model _ _ R (x :: s) [] (root (run ops)) eq_refl He).
+  destruct (mlen (root (run ops)) (x :: s)); [reflexivity|]. cbn [orb]. rewrite <- IH.
+  destruct (first_match (root (run ops)) s) as [[j k]|]; reflexivity.
 Qed.
